@@ -40,6 +40,10 @@ STRINGS = STRINGS_CORE + [
     "a+b", "x=y", "a = 1", "a,b", "(a)", "{a}", "<m>", "a;b", "a&b", "a|b", "a~b", "a!b", "a%b", "a[1]", "^a", "a:b",
     "a.b", "a-b", "x/y", "a*b", "café", "a\xa0b", "\xa0", "a\x01b", "a\x00b", "中", "a\x85b", "a\fb",
     "END\nx = 1", "\"", "'", "a'", "'a", "a\"", "-\n", "a-", "x-\ny",
+    # bare-word candidates that only a more permissive decoder reads as something else
+    "12:00-01", "12:00-1", "2001-01-01T12:00-01:30", "12:00:00.5-12", "23:59:60-01", "1:2", "2001-1-1", "12:00z",
+    "a-\r\nb", "Jupi-\r\n  ter", "a-\n\n b", "a-\f b", "a-\n\tb", "a-\rb", "a-\n-\nb", "a -\r\n\r\n b",
+    "16#-7F#", "-16#7F#", "3#12#", "10#9#", "1_0", "0x10", "1e", "e5", ".e1", "1.e", "+.", "2001-366", "2000-366",
 ] + [long_string(n) for n in (35, 39, 40, 41, 45, 70, 78, 79, 80, 81, 90, 160)] + [
     "x" * 40, "x" * 41, "y" * 85, ("word " * 30).strip(), "a" * 30 + " " + "b" * 60,
 ]
@@ -58,7 +62,8 @@ DATETIMES = [dt.datetime(y, mo, d, *f, tzinfo=z) for (y, mo, d) in ((2001, 1, 1)
 def quantities():
     Q = impl.Quantity
     return [Q(1.5, "m"), Q(1, "m/s"), Q(2, "km**2"), Q(-3, "m**-1"), Q("s", "m"), Q([1, 2], "m"), Q(1, "a b"),
-            Q(1, ""), Q(1.0, "deg C"), Q(None, "m"), Q(dt.date(2001, 1, 1), "d"), Q(1, "m**x")]
+            Q(1, ""), Q(1.0, "deg C"), Q(None, "m"), Q(dt.date(2001, 1, 1), "d"), Q(1, "m**x"),
+            Q(1.5, "m\t/ s"), Q(1, "a\tb"), Q(2, "m\ns"), Q(3, "<m>"), Q(4, "m>"), Q(5, "caf\u00e9")]
 
 
 def simple_values():
@@ -67,7 +72,9 @@ def simple_values():
 
 CORE = [None, True, 0, -1, 1.5, "abc", "a b", "", "NULL", "it's", dt.date(2001, 2, 28), dt.time(12, 0, tzinfo=UTC)]
 
-KEYS = ["k", "Key_1", "lower", "^ptr", "ns:key", "K" * 30, "K" * 31, "bad key", "END", "a-b", "k.x", "1k", "k_", ""]
+KEYS = ["k", "Key_1", "lower", "^ptr", "ns:key", "K" * 30, "K" * 31, "bad key", "END", "a-b", "k.x", "1k", "k_", "",
+        "g-", "12:00", "12:00-01", "2001-001", "NULL", "true", "group", "1", "1.5", "16#F#", "a+b", "a#b", "x/y",
+        "a\"b", "it's", "end_group", "Begin_Object"]
 
 
 def modules(tier):
@@ -107,6 +114,11 @@ def modules(tier):
     for n in range(0, nmax + 1):
         for f in gen.forests(n, ["a", "b"], ["g", "a"], [1]):
             yield "tree", f
+    # the same trees with names of different lengths (alignment with duplicate names)
+    for n in range(1, 4):
+        for f in gen.forests(n, ["a", "long_name"], ["g", "long_name"], [1]):
+            if any(k == "long_name" for k, _ in f) or n == 3:
+                yield "tree-long", f
     # three-deep list, mixed
     yield "deep", [["k", [1, [2, [3, [4]]]]]]
     yield "mixed", [["a", 1], ["a", "x y"], ["g", G([["a", enc(dt.date(2001, 1, 1))], ["a", [1, 2]]])],
